@@ -71,6 +71,9 @@ func execBig(c *core.Ctx, cs Case) {
 			}
 			if i%every == every-1 || i == len(cs.Ops)-1 {
 				sa, sb := a.observe(), b.observe()
+				if sb.blind() {
+					c.Unobservable("list walk bound reached on container/list: traversals not compared")
+				}
 				if !reflect.DeepEqual(sa, sb) {
 					fail("state differs from container/list", fmt.Sprintf("after op %d %v: lists %v, container/list %v", i, op, sa, sb))
 				}
@@ -90,6 +93,7 @@ func execBig(c *core.Ctx, cs Case) {
 		return
 	}
 	a, b := &ringA{}, &ringB{}
+	fresh := map[int]bool{}
 	for i, op := range cs.Ops {
 		if (op.K == "RMove" || op.K == "RUnlink") && (op.B > 1<<25 || op.B < -(1<<25)) {
 			fail("harness: count too large for the reference implementation", fmt.Sprint(op))
@@ -117,8 +121,9 @@ func execBig(c *core.Ctx, cs Case) {
 				c.Count("count_small")
 			}
 		}
-		if i%every == every-1 || i == len(cs.Ops)-1 {
-			sa, sb := a.observe(), b.observe()
+		touch(fresh, op, ra)
+		if i%every == every-1 {
+			sa, sb := a.observe(fresh), b.observe(fresh)
 			if !reflect.DeepEqual(sa, sb) {
 				fail("state differs from container/ring", fmt.Sprintf("after op %d %v: lists %v, container/ring %v", i, op, sa, sb))
 			}
@@ -126,6 +131,13 @@ func execBig(c *core.Ctx, cs Case) {
 		if failed {
 			return
 		}
+	}
+	sa, sb := a.observe(nil), b.observe(nil)
+	if !reflect.DeepEqual(sa, sb) {
+		fail("final state differs from container/ring", fmt.Sprintf("lists %v, container/ring %v", sa, sb))
+	}
+	if b.blind {
+		c.Unobservable("ring walk bound reached on container/ring: Len/Do not compared")
 	}
 	c.Nontrivial()
 }
